@@ -1,5 +1,5 @@
 """C16 — ovnisort yields a stable sorted permutation and touches only what it must (DESIGN section 4, C16)."""
-import os
+import os, json
 from hypothesis import strategies as st
 from vlib.runner import Part, Violation
 from vlib import trace as T, tools, obs, gen, judge
@@ -216,5 +216,49 @@ def run(case, ctx):
             + (["foreign-U-events"] if "require" in s0 else [])}
 
 
+def enum_many(ctx):
+    yield {"streams": 1100, "regions": 0}
+    yield {"streams": 1100, "regions": 3}
+    if ctx.tier != "quick":
+        yield {"streams": 2500, "regions": 1}
+
+
+def run_many(case, ctx):
+    """More streams than the default open-files limit (1024), most of them without any region:
+    the tool must work through all of them."""
+    b = ctx.b("plain")
+    n = case["streams"]
+    streams = []
+    want = {}
+    for i in range(n):
+        evs = [T.OHx(1000, -1), T.plain("OB.", 1010), T.plain("OB.", 1020)]
+        if i % max(1, n // max(1, case["regions"])) == 7 and case["regions"]:
+            evs += [T.ev("OU[", 1030, ""), T.plain("OB.", 1015), T.plain("OB.", 1012), T.ev("OU]", 1031, "")]
+        evs.append(T.plain("OHe", 1040))
+        s_ = {"loom": "n.0", "pid": 1, "tid": 100 + i, "app": 1, "events": evs}
+        if i == 0:
+            s_["cpus"] = [[0, 0]]
+        streams.append(s_)
+        want[i] = [key(e) for e in sorted(evs, key=lambda e: e[1])]
+    d = ctx.newdir()
+    try:
+        T.write_trace({"streams": streams}, d)
+        r = tools.run([b.tool("ovnisort"), d], cpu_s=120, wall_s=600, nofile=1024)
+        if r.kind != "ok":
+            raise Violation("ovnisort fails on a sortable trace of %d streams under the default open-files limit (1024): %s" % (n, r.brief()))
+        for i, s_ in enumerate(streams):
+            dec = obs.decode_stream(open(os.path.join(d, T.stream_relpath(s_), "stream.obs"), "rb").read())
+            got = [(e.mcv, e.clock, e.payload.hex(), int(e.jumbo)) for e in dec]
+            if got != want[i]:
+                raise Violation("stream %d of %d is not the stable sort of its events after ovnisort" % (i, n))
+        rc = tools.run([b.tool("ovnisort"), "-c", d], cpu_s=120, wall_s=600, nofile=1024)
+        if not rc.ok:
+            raise Violation("ovnisort -c fails after a successful sort of %d streams: %s" % (n, rc.brief()))
+    finally:
+        ctx.rmdir(d)
+    return {"nt": True, "cls": ["many-streams"], "key": json.dumps(case)}
+
+
 def parts(tier):
-    return [Part("sort", run, strategy=lambda ctx: streams(), budget={"quick": 5000, "thorough": 80000})]
+    return [Part("sort", run, strategy=lambda ctx: streams(), budget={"quick": 5000, "thorough": 80000}),
+            Part("many-streams", run_many, enum=enum_many)]
